@@ -20,13 +20,12 @@ Init == CoreInit /\ prev = <<>>
 PrecisionKnown(r) ==
   /\ "diff-ignores-precision" \in KnownDevs /\ r.inv.precision > 0 /\ r.mode = "diff" /\ ~r.lib.err /\ r.lib.eq /\ r.lib.diff
 
-(* the two listed deviations of the merge reader (C12), seen through the binaries: the round trip of -f merge output fails *)
-(* exactly as the deviation predicts (the patch {} leaves a non-object a unchanged; the patch null yields the empty document) *)
+(* a listed deviation of the merge reader (C12), seen through the binaries: the round trip of -f merge output fails exactly *)
+(* as the deviation predicts (the patch {} leaves a non-object a unchanged)                                                *)
 MergeRtKnown(r) ==
   /\ r.inv.f = "merge" /\ r.rt.proc.exit = 0
-  /\ \/ "merge-empty-object-replaces" \in KnownDevs /\ r.lib.out = "{}" /\ r.rt.b = EmptyObj /\ ~IsObj(r.rt.a) /\ r.rt.doc = r.rt.a
-     \/ "merge-root-null-deletes" \in KnownDevs /\ r.lib.out = "null" /\ r.rt.b = Null /\ r.rt.doc = Void
-MergeRtName(r) == IF r.lib.out = "{}" THEN "merge-empty-object-replaces" ELSE "merge-root-null-deletes"
+  /\ "merge-empty-object-replaces" \in KnownDevs /\ r.lib.out = "{}" /\ r.rt.b = EmptyObj /\ ~IsObj(r.rt.a) /\ r.rt.doc = r.rt.a
+MergeRtName(r) == "merge-empty-object-replaces"
 
 TProc ==
   /\ IsEvent("Proc") /\ Consume
@@ -46,7 +45,8 @@ TProc ==
           \* not in the statement (only the status is): recorded, not judged
           /\ (isErr /\ o.kind # "usage") => Note(pr.stdout = "", "C14", "error-prints-to-stdout")
           /\ Rec.twin => Check(pr.stdout = prev.stdout /\ pr.exit = prev.exit /\ Rec.file = prev.file, "C14", "stdin-differs-from-file")
-          /\ ("rt" \in DOMAIN Rec) =>
+          \* a JSON Merge Patch cannot say "null": the merge format carries null-free documents only (C01, C11 say so too)
+          /\ ("rt" \in DOMAIN Rec /\ (i.f = "merge" => (NullFree(Rec.rt.a) /\ NullFree(Rec.rt.b)))) =>
                /\ Check(Rec.rt.proc.exit = 0, "C14", <<"round-trip-patch-fails", Rec.rt.proc.exit>>)
                /\ Rec.rt.proc.exit = 0 =>
                     IF Rec.rt.doc.k # "I" /\ Eq(Rec.rt.doc, Rec.rt.b, Rec.rt.opts) THEN TRUE
